@@ -110,7 +110,15 @@ pub fn check_queries<D: Queries>(g: &D, name: &str, m: &UModel, walks: &[Vec<usi
     let got_a: Vec<(usize, usize)> = g.arcs().collect();
     ensure!(got_a == m.arcs(), "{name}: arcs() = {got_a:?}, A = {:?}", m.arcs());
 
-    let mut ids = vs.clone();
+    // beyond 200 vertices the per-vertex and per-pair loops run over a sample
+    // (first / last rows, both sides of word and chunk boundaries, a few
+    // pseudo-random ids); the sequences are always compared in full
+    let probe: Vec<usize> = if vs.len() > 200 {
+        gen::sample_ids(vs.len(), m.size()).into_iter().map(|i| vs[i]).collect()
+    } else {
+        vs.clone()
+    };
+    let mut ids = probe.clone();
     ids.extend(outside_ids(m));
     for &u in &ids {
         for &v in &ids {
@@ -137,14 +145,21 @@ pub fn check_queries<D: Queries>(g: &D, name: &str, m: &UModel, walks: &[Vec<usi
         let got = guarded(|| g.has_walk(w)).map_err(|p| format!("{name}: has_walk({w:?}) is total but panicked: {p}"))?;
         ensure!(got == want, "{name}: has_walk({w:?}) = {got}, definition says {want}");
     }
-    let mut indeg = vec![];
-    let mut outdeg = vec![];
-    for &v in &vs {
+    // degrees straight from the arc list (one pass)
+    let mut indeg_of: std::collections::BTreeMap<usize, usize> = vs.iter().map(|&v| (v, 0)).collect();
+    let mut outdeg_of = indeg_of.clone();
+    for &(u, v) in m.a.keys() {
+        *outdeg_of.get_mut(&u).unwrap() += 1;
+        *indeg_of.get_mut(&v).unwrap() += 1;
+    }
+    let indeg: Vec<usize> = vs.iter().map(|v| indeg_of[v]).collect();
+    let outdeg: Vec<usize> = vs.iter().map(|v| outdeg_of[v]).collect();
+    for &v in &probe {
         let out: Vec<usize> = g.out_neighbors(v).collect();
         ensure!(out == m.out(v), "{name}: out_neighbors({v}) = {out:?}, definition {:?}", m.out(v));
         let inn: Vec<usize> = g.in_neighbors(v).collect();
         ensure!(inn == m.inn(v), "{name}: in_neighbors({v}) = {inn:?}, definition {:?}", m.inn(v));
-        let (i, o) = (m.indeg(v), m.outdeg(v));
+        let (i, o) = (indeg_of[&v], outdeg_of[&v]);
         ensure!(g.indegree(v) == i, "{name}: indegree({v}) = {}, definition {i}", g.indegree(v));
         ensure!(g.outdegree(v) == o, "{name}: outdegree({v}) = {}, definition {o}", g.outdegree(v));
         ensure!(g.degree(v) == i + o, "{name}: degree({v}) = {}, definition {}", g.degree(v), i + o);
@@ -162,14 +177,12 @@ pub fn check_queries<D: Queries>(g: &D, name: &str, m: &UModel, walks: &[Vec<usi
             g.is_pendant(v),
             i + o
         );
-        indeg.push(i);
-        outdeg.push(o);
     }
     let sinks: Vec<usize> = g.sinks().collect();
-    let want: Vec<usize> = vs.iter().copied().filter(|&v| m.outdeg(v) == 0).collect();
+    let want: Vec<usize> = vs.iter().copied().filter(|v| outdeg_of[v] == 0).collect();
     ensure!(sinks == want, "{name}: sinks() = {sinks:?}, definition {want:?}");
     let sources: Vec<usize> = g.sources().collect();
-    let want: Vec<usize> = vs.iter().copied().filter(|&v| m.indeg(v) == 0).collect();
+    let want: Vec<usize> = vs.iter().copied().filter(|v| indeg_of[v] == 0).collect();
     ensure!(sources == want, "{name}: sources() = {sources:?}, definition {want:?}");
     let ds: Vec<usize> = g.degree_sequence().collect();
     let want: Vec<usize> = indeg.iter().zip(&outdeg).map(|(a, b)| a + b).collect();
@@ -200,7 +213,12 @@ fn weight_of(u: usize, v: usize) -> usize {
 fn check_weighted(g: &AdjacencyListWeighted<usize>, m: &UModel) -> Verdict {
     let name = "AdjacencyListWeighted";
     let vs = m.vertices();
-    let mut ids = vs.clone();
+    let probe: Vec<usize> = if vs.len() > 200 {
+        gen::sample_ids(vs.len(), m.size()).into_iter().map(|i| vs[i]).collect()
+    } else {
+        vs.clone()
+    };
+    let mut ids = probe.clone();
     ids.extend(outside_ids(m));
     for &u in &ids {
         for &v in &ids {
@@ -210,7 +228,7 @@ fn check_weighted(g: &AdjacencyListWeighted<usize>, m: &UModel) -> Verdict {
             ensure!(w == want, "{name}: arc_weight({u}, {v}) = {w:?}, definition {want:?}");
         }
     }
-    for &u in &vs {
+    for &u in &probe {
         let got: Vec<(usize, usize)> = g.out_neighbors_weighted(u).map(|(v, w)| (v, *w)).collect();
         let want: Vec<(usize, usize)> = m.out(u).into_iter().map(|v| (v, weight_of(u, v))).collect();
         ensure!(got == want, "{name}: out_neighbors_weighted({u}) = {got:?}, definition {want:?}");
@@ -274,7 +292,7 @@ impl Prop for C02 {
     type Case = Case;
     const ID: &'static str = "C02";
     const NUM: u64 = 2;
-    const RULE: &'static str = "digraphs of order 1..40 (quick) / 1..130 (thorough) built into all five representations through empty + add_arc[_weighted], plus AdjacencyMap digraphs with non-contiguous ids; every vertex, every ordered pair over V + {order, order+1, max id+1, 1000, usize::MAX}, 8 vertex sequences per case (genuine random walks of length 0,1,2,..12, each optionally corrupted at one uniformly chosen position or extended by one arbitrary step, ids outside V included); a generated CPU count k (AdjacencyList::degree_sequence is threaded); enum leg: every digraph of order <=3 (quick) / <=4 (thorough). Non-trivial = size >=3, some vertex of indegree >=2, at least one false and one true has_walk answer over sequences of length >=2, and an id outside V was queried (always); distinct = distinct serialised case.";
+    const RULE: &'static str = "digraphs of order 1..40 (quick) / 1..130 (thorough), about one in 25 at a large order (17..140, incl. 63..66, 127..130), and a low-rate 'huge' leg (orders 200..3100 with O(n) arcs, rows of exactly 255/256/257 out-neighbours, arcs in the last rows; per-vertex and per-pair queries on a sample of ids there) built into all five representations through empty + add_arc[_weighted], plus AdjacencyMap digraphs with non-contiguous ids; every vertex, every ordered pair over V + {order, order+1, max id+1, 1000, usize::MAX}, 8 vertex sequences per case (genuine random walks of length 0,1,2,..12, each optionally corrupted at one uniformly chosen position or extended by one arbitrary step, ids outside V included); a generated CPU count k (AdjacencyList::degree_sequence is threaded); enum leg: every digraph of order <=3 (quick) / <=4 (thorough). Non-trivial = size >=3, some vertex of indegree >=2, at least one false and one true has_walk answer over sequences of length >=2, and an id outside V was queried (always); distinct = distinct serialised case.";
     const ASSUMPTIONS: &'static [&'static str] = &[
         "queries documented to panic for a vertex outside V are only called with vertices in V",
         "is_source / in_neighbors outside V are not judged",
@@ -297,10 +315,31 @@ impl Prop for C02 {
                 workers: 16,
                 build: Build::Normal,
             },
+            Leg {
+                name: "huge",
+                kind: LegKind::Random {
+                    cases: tier.pick(5, 60),
+                },
+                workers: 16,
+                build: Build::Normal,
+            },
         ]
     }
 
-    fn strategy(_leg: &str, tier: Tier) -> BoxedStrategy<Case> {
+    fn strategy(leg: &str, tier: Tier) -> BoxedStrategy<Case> {
+        if leg == "huge" {
+            return (gen::huge_dg(), vec(any::<u16>(), 64), 1..=16_usize)
+                .prop_map(|((g, family), raw, cpus)| {
+                    let m = reprs::model_of(&g);
+                    Case {
+                        walks: make_walks(&m, &raw),
+                        g: G::Contiguous(g),
+                        cpus,
+                        family,
+                    }
+                })
+                .boxed();
+        }
         let max = tier.pick(40, 130);
         (
             prop_oneof![
